@@ -58,6 +58,9 @@ const ELEMS: &[(&str, &str)] = &[
 const ATTR_NAMES: &[(&str, Option<&str>, &str)] = &[
     ("", None, "id"), ("", None, "class"), ("", None, "selected"), ("", None, "multiple"), ("http://www.w3.org/1999/xlink", Some("xlink"), "href"),
     ("", None, "x"), ("", None, "selected"), ("http://www.w3.org/XML/1998/namespace", Some("xml"), "lang"),
+    // the same expanded names under other prefixes / no prefix, and a local name in two namespaces
+    ("http://www.w3.org/1999/xlink", Some("xl"), "href"), ("", None, "href"),
+    ("http://www.w3.org/XML/1998/namespace", Some("x"), "lang"), ("", None, "lang"), ("", Some("p"), "id"),
 ];
 
 fn mk_attrs(spec: &[(u16, String)]) -> Vec<Attribute> {
@@ -65,7 +68,7 @@ fn mk_attrs(spec: &[(u16, String)]) -> Vec<Attribute> {
     for (i, v) in spec {
         let (ns, prefix, local) = ATTR_NAMES[*i as usize % ATTR_NAMES.len()];
         let name = QualName::new(prefix.map(|p| p.into()), Namespace::from(ns), LocalName::from(local));
-        if out.iter().any(|a| a.name == name) {
+        if out.iter().any(|a| crate::sinks::model::same_qname(&a.name, &name)) {
             continue; // the contract forbids duplicate names in one list
         }
         out.push(Attribute { name, value: StrTendril::from(v.as_str()) });
@@ -229,7 +232,7 @@ impl Interp {
                 let Some(e) = pick(&elems, *target) else { return self.skip() };
                 let new = mk_attrs(attrs);
                 if let MKind::Element { attrs: ex, .. } = self.kind(e.id) {
-                    if new.iter().any(|a| ex.iter().any(|b| b.name == a.name)) {
+                    if new.iter().any(|a| ex.iter().any(|b| crate::sinks::model::same_qname(&b.name, &a.name))) {
                         self.labels.push("add_attrs_if_missing with an existing name");
                     }
                 }
